@@ -190,4 +190,7 @@ class Prop:
 def load_prop(pid):
     import importlib
     mod = importlib.import_module(f'vf.props.{pid.lower()}')
+    from .added import ADDED
+    if ADDED.get(pid) and ADDED[pid] not in mod.PROP.rule:
+        mod.PROP.rule += '. ' + ADDED[pid]
     return mod.PROP
